@@ -1244,7 +1244,7 @@ func (r *Run) copyOp(d SliceVal, srcV Value) Value {
 				nn = arrStore(nn, c.Add(d.off, kk), r.arrSelect(sa.node, c.Add(s.off, kk)))
 			}
 		} else {
-			nn = arrCopy(da.node, d.off, sa.node, s.off, n)
+			nn = r.arrCopyM(da.node, d.off, sa.node, s.off, n)
 		}
 		r.setSliceArr(d, &ArrVal{node: nn, n: da.n})
 	case *GArr:
